@@ -24,6 +24,13 @@
 //!   * a parameter `impl Iterator<Item = S>` (S: GridItemStyle) is the list of the styles it yields; `iter.for_each(|x| { … });` as a statement
 //!     is `Occ.forM iter state (fun x state => …)` over the tuple of the captured outer locals the closure assigns (a `return` inside the
 //!     closure — "skip this element" — is rejected); integer literals in a `let (a, b, c) = (…, 0)` are `u16` like a lone literal.
+//!   * `place_grid_items`: the parameter `children_iter: impl Fn() -> ChildIter` (`Item = (usize, NodeId, S)`) is the list `List (Nat × Child)` that
+//!     every call yields (ASSUMED: the closure is pure, each call enumerates the same children; the NodeId is not modelled);
+//!     `let f = { let a = …; move |…| … };` hoists the inner `let`s (fresh names) and remembers the closure; a statement
+//!     `list.filter(|(_, _, s)| pure).map(f).for_each(|(a, b, c, d)| { … });` is `Occ.forM (List.filter p list) state (fun (index, style) state => …)`
+//!     whose body is the `let`s of `f`, then the statements of the `for_each` closure — in that order per element, as lazy adaptors run (the
+//!     conversion of element k+1 comes after element k has been processed); `let mut idx = 0;` whose only uses are `idx += literal;` (read by
+//!     cfg(test) code only) is dropped together with those statements.
 //! Anything else in a required function is an EXTRACT-ERROR.
 use crate::gridint::{extract_with_fns, lname, segs, Cx, Pre, Sig, R, T};
 use crate::util::{parse_file, CfgEnv};
@@ -46,6 +53,8 @@ pub(crate) struct Ext {
     pub glob_placement: bool,
     /// parameters that are dropped (only forwarded to `GridItem::new_with_placement_style_and_order`)
     pub dropped: HashSet<String>,
+    /// `let mut idx = 0;` whose only uses are `idx += literal` statements (read only by cfg(test) code): the local and those statements are dropped
+    pub dead: HashSet<String>,
 }
 
 pub(crate) fn lean_ty(t: &T) -> String {
@@ -118,6 +127,9 @@ pub(crate) fn ty_ext(s: &str) -> R<T> {
         "S" => T::Child,
         // an iterator over the children's styles, consumed once (`for_each`): the list of the styles it yields
         "implIterator<Item=S>" => T::List(Box::new(T::Child)),
+        // `children_iter: impl Fn() -> ChildIter`, `ChildIter: Iterator<Item = (usize, NodeId, S)>`: the list every call yields (the closure is
+        // taken to be pure: each of its calls enumerates the same children); the NodeId is not modelled
+        "implFn()->ChildIter" => T::List(Box::new(T::IdxChild)),
         _ if s.starts_with('(') && s.ends_with(')') => {
             let inner = &s[1..s.len() - 1];
             let mut ts = vec![];
@@ -290,6 +302,13 @@ impl<'a> Cx<'a> {
                 let r = self.ex(&c.body, expect, pre);
                 self.locals = saved;
                 return r;
+            }
+        }
+        if p.len() == 1 && args.is_empty() {
+            if let Some((l, t @ T::List(_))) = self.locals.get(name).cloned() {
+                if t == T::List(Box::new(T::IdxChild)) {
+                    return Ok((l, t));
+                }
             }
         }
         if self.ext.glob_placement && p.len() == 1 && (name == "Line" || name == "Span") {
@@ -1180,6 +1199,47 @@ impl<'a> Cx<'a> {
             }
             Stmt::Macro(m) if !env.enabled(&m.attrs)? => self.pblock(rest, ctl, expect, out_ty),
             Stmt::Local(l) if !env.enabled(&l.attrs)? => self.pblock(rest, ctl, expect, out_ty),
+            // `let name = { let a = …; let b = …; move |…| … };`: the inner `let`s are hoisted (their names must be fresh), the closure is remembered
+            Stmt::Local(l) if env.enabled(&l.attrs)? && matches!(l.init.as_ref().map(|i| &*i.expr), Some(Expr::Block(b)) if matches!(b.block.stmts.last(), Some(Stmt::Expr(Expr::Closure(_), None)))) => {
+                let b = match &*l.init.as_ref().unwrap().expr {
+                    Expr::Block(b) => b.block.stmts.clone(),
+                    _ => unreachable!(),
+                };
+                let (last, init) = b.split_last().unwrap();
+                let mut all: Vec<Stmt> = vec![];
+                for st in init {
+                    match st {
+                        Stmt::Local(il) => match &il.pat {
+                            Pat::Ident(i) if !self.locals.contains_key(&i.ident.to_string()) => all.push(st.clone()),
+                            _ => return Err("hoisted `let` of a closure-building block: pattern / name already in use".into()),
+                        },
+                        _ => return Err("statement in a closure-building block".into()),
+                    }
+                }
+                let pat = &l.pat;
+                let c = match last {
+                    Stmt::Expr(c, None) => c,
+                    _ => unreachable!(),
+                };
+                all.push(syn::parse_quote!(let #pat = #c;));
+                all.extend_from_slice(rest);
+                self.pblock(&all, ctl, expect, out_ty)
+            }
+            // a counter that is only incremented (read by cfg(test) code only): dropped
+            Stmt::Local(l) if env.enabled(&l.attrs)? && matches!((&l.pat, l.init.as_ref().map(|i| &*i.expr)), (Pat::Ident(i), Some(Expr::Lit(_))) if i.mutability.is_some() && { let n = i.ident.to_string(); let (a, b) = counter_uses(rest, &n); a == b }) => {
+                if let Pat::Ident(i) = &l.pat {
+                    self.locals.remove(&i.ident.to_string());
+                    self.ext.dead.insert(i.ident.to_string());
+                }
+                self.pblock(rest, ctl, expect, out_ty)
+            }
+            Stmt::Expr(Expr::Binary(b), _) if matches!(b.op, BinOp::AddAssign(_)) && matches!(&*b.left, Expr::Path(p) if p.path.segments.len() == 1 && self.ext.dead.contains(&p.path.segments[0].ident.to_string()) && !self.locals.contains_key(&p.path.segments[0].ident.to_string())) => {
+                self.pblock(rest, ctl, expect, out_ty)
+            }
+            // `list.filter(…).map(name).for_each(|…| { … });`
+            Stmt::Expr(Expr::MethodCall(m), Some(_)) if m.method == "for_each" && matches!(&*m.receiver, Expr::MethodCall(x) if x.method == "map") => {
+                self.chain_stmt(m, rest, ctl, expect, out_ty)
+            }
             Stmt::Local(l) => {
                 let init = &l.init.as_ref().ok_or("let without value")?.expr;
                 // a closure: remembered, inlined at its calls
@@ -1425,6 +1485,184 @@ impl<'a> Cx<'a> {
     }
 }
 
+
+/// number of occurrences of the path `name` in enabled code, and how many of them are the left side of `name += literal;`
+fn counter_uses(stmts: &[Stmt], name: &str) -> (usize, usize) {
+    struct V<'n>(&'n str, usize, usize);
+    impl<'ast, 'n> syn::visit::Visit<'ast> for V<'n> {
+        fn visit_expr_path(&mut self, p: &'ast syn::ExprPath) {
+            if p.path.is_ident(self.0) {
+                self.1 += 1;
+            }
+        }
+        fn visit_expr_binary(&mut self, b: &'ast syn::ExprBinary) {
+            if matches!(b.op, BinOp::AddAssign(_)) && matches!(&*b.left, Expr::Path(p) if p.path.is_ident(self.0)) && matches!(&*b.right, Expr::Lit(_)) {
+                self.2 += 1;
+            }
+            syn::visit::visit_expr_binary(self, b);
+        }
+    }
+    let mut v = V(name, 0, 0);
+    for s in stmts {
+        syn::visit::Visit::visit_stmt(&mut v, s);
+    }
+    (v.1, v.2)
+}
+
+/// `recv.filter(F).map(NAME).for_each(C)` ↦ (recv, F, NAME, C)
+fn chain_parts(m: &syn::ExprMethodCall) -> Option<(&Expr, &syn::ExprClosure, String, &syn::ExprClosure)> {
+    if m.method != "for_each" || m.args.len() != 1 {
+        return None;
+    }
+    let c = match &m.args[0] {
+        Expr::Closure(c) => c,
+        _ => return None,
+    };
+    let mp = match &*m.receiver {
+        Expr::MethodCall(x) if x.method == "map" && x.args.len() == 1 => x,
+        _ => return None,
+    };
+    let name = match &mp.args[0] {
+        Expr::Path(p) if p.path.segments.len() == 1 => p.path.segments[0].ident.to_string(),
+        _ => return None,
+    };
+    let fl = match &*mp.receiver {
+        Expr::MethodCall(x) if x.method == "filter" && x.args.len() == 1 => x,
+        _ => return None,
+    };
+    let f = match &fl.args[0] {
+        Expr::Closure(c) => c,
+        _ => return None,
+    };
+    Some((&*fl.receiver, f, name, c))
+}
+
+fn strip_pat(p: &Pat) -> &Pat {
+    match p {
+        Pat::Type(t) => strip_pat(&t.pat),
+        Pat::Paren(t) => strip_pat(&t.pat),
+        Pat::Reference(t) => strip_pat(&t.pat),
+        _ => p,
+    }
+}
+
+impl<'a> Cx<'a> {
+    /// bind the pattern `(index, node, style)` of an element `(usize, NodeId, S)`; returns the Lean pattern `(index, style)`
+    fn idx_child_pat(&mut self, p: &Pat) -> R<String> {
+        let elems = match strip_pat(p) {
+            Pat::Tuple(t) if t.elems.len() == 3 => t.elems.iter().collect::<Vec<_>>(),
+            _ => return Err("pattern of an element `(usize, NodeId, S)`".into()),
+        };
+        let mut out = vec![];
+        for (i, e) in elems.iter().enumerate() {
+            match (i, strip_pat(e)) {
+                (1, Pat::Wild(_)) => {}
+                (1, Pat::Ident(id)) => {
+                    self.locals.remove(&id.ident.to_string());
+                    self.ext.dropped.insert(id.ident.to_string());
+                }
+                (_, Pat::Wild(_)) => out.push("_".to_string()),
+                (_, Pat::Ident(id)) => {
+                    let n = id.ident.to_string();
+                    let l = lname(&n);
+                    self.locals.insert(n, (l.clone(), if i == 0 { T::Usize } else { T::Child }));
+                    out.push(l);
+                }
+                _ => return Err("pattern of an element `(usize, NodeId, S)`".into()),
+            }
+        }
+        Ok(format!("({})", out.join(", ")))
+    }
+
+    /// `list.filter(|(_, _, s)| pure).map(NAME).for_each(|(a, b, c, d)| { … });` — lazily, as the iterator adaptors run: for each element that
+    /// passes the (pure) filter, the statements of the closure NAME, then the statements of the `for_each` closure
+    fn chain_stmt(&mut self, m: &syn::ExprMethodCall, rest: &[Stmt], ctl: &Ctl, expect: Option<&T>, out_ty: &mut Option<T>) -> R<PS> {
+        let (recv, fc, name, body_c) = chain_parts(m).ok_or("iterator chain that is not `filter(closure).map(named closure).for_each(closure)`")?;
+        let mut pre = vec![];
+        let (list, lt) = self.ex(recv, None, &mut pre)?;
+        if lt != T::List(Box::new(T::IdxChild)) {
+            return Err(format!("iterator chain over {:?}", lt));
+        }
+        // the filter: a pure predicate
+        let saved = self.locals.clone();
+        let saved_dropped = self.ext.dropped.clone();
+        if fc.inputs.len() != 1 {
+            return Err("filter closure arity".into());
+        }
+        let fpat = self.idx_child_pat(&fc.inputs[0])?;
+        let mut fpre = vec![];
+        let (fb, fbt) = self.ex(&fc.body, None, &mut fpre)?;
+        self.locals = saved.clone();
+        if !fpre.is_empty() || !matches!(fbt, T::Bool | T::Prop) {
+            return Err("filter predicate with a checked operation inside / not a boolean".into());
+        }
+        let fb = if fbt == T::Prop { format!("decide ({fb})") } else { fb };
+        let list = format!("(List.filter (fun {fpat} => {fb}) {list})");
+        // the map closure and the for_each closure
+        let mc = self.ext.closures.get(&name).cloned().ok_or(format!("`.map({name})`: not a closure bound by `let`"))?;
+        if mc.inputs.len() != 1 || body_c.inputs.len() != 1 {
+            return Err("closure arity in an iterator chain".into());
+        }
+        let (m_stmts, m_tuple): (Vec<Stmt>, syn::ExprTuple) = match &*mc.body {
+            Expr::Block(b) => match b.block.stmts.split_last() {
+                Some((Stmt::Expr(Expr::Tuple(t), None), init)) => (init.to_vec(), t.clone()),
+                _ => return Err("map closure that does not end in a tuple".into()),
+            },
+            _ => return Err("map closure whose body is not a block".into()),
+        };
+        let b_stmts: Vec<Stmt> = match &*body_c.body {
+            Expr::Block(b) => b.block.stmts.clone(),
+            _ => return Err("`for_each` closure whose body is not a block".into()),
+        };
+        if contains_return(&b_stmts) || contains_return(&m_stmts) || m_stmts.iter().any(|s| !matches!(s, Stmt::Local(_))) {
+            return Err("`return` / non-`let` statement in a closure of an iterator chain".into());
+        }
+        // the state: outer locals assigned by the for_each body
+        let mut vars = vec![];
+        self.assigned(&b_stmts, &mut vars);
+        let lv: Vec<String> = vars.iter().map(|v| self.lvar(v)).collect();
+        let tup = tuple_of(&lv);
+        let var = self.idx_child_pat(&mc.inputs[0])?;
+        // the `let`s of the map closure are translated in front of the body; its result tuple is matched with the for_each pattern by name
+        let bpat = match strip_pat(&body_c.inputs[0]) {
+            Pat::Tuple(t) if t.elems.len() == m_tuple.elems.len() => t.elems.iter().cloned().collect::<Vec<_>>(),
+            _ => return Err("for_each pattern does not match the tuple of the map closure".into()),
+        };
+        // names introduced by the map closure's lets must be known before the aliasing: translate them first, in a nested scope
+        let mut all = m_stmts.clone();
+        let mut alias: Vec<(String, String)> = vec![];
+        for (bp, te) in bpat.iter().zip(m_tuple.elems.iter()) {
+            let src = match te {
+                Expr::Path(p) if p.path.segments.len() == 1 => p.path.segments[0].ident.to_string(),
+                _ => return Err("element of the map closure's tuple is not a local".into()),
+            };
+            match strip_pat(bp) {
+                Pat::Wild(_) => {}
+                Pat::Ident(id) => alias.push((id.ident.to_string(), src)),
+                _ => return Err("for_each pattern element".into()),
+            }
+        }
+        // `let dst = src;` for every renamed element (dropped ones stay dropped)
+        for (dst, src) in &alias {
+            if self.ext.dropped.contains(src) {
+                self.ext.dropped.insert(dst.clone());
+                continue;
+            }
+            if dst != src {
+                let d = syn::Ident::new(dst, proc_macro2::Span::call_site());
+                let sr = syn::Ident::new(src, proc_macro2::Span::call_site());
+                all.push(syn::parse_quote!(let #d = #sr;));
+            }
+        }
+        all.extend(b_stmts);
+        let body = self.pblock(&all, &Ctl { end: End::Tuple(tup.clone()), in_loop: None }, None, &mut None)?;
+        self.locals = saved;
+        self.ext.dropped = saved_dropped;
+        let r = self.pblock(rest, ctl, expect, out_ty)?;
+        Ok(pwrap(pre, PS::For { st: tup, var, list, body: Box::new(body), rest: Box::new(r) }))
+    }
+}
+
 // ---------------------------------------------------------------------------------------------------------------------------------
 // driver
 
@@ -1472,7 +1710,7 @@ const TARGETS: &[Target] = &[
     t(IG, "", "child_min_line_max_line_span", true),
     t(IG, "", "get_known_child_positions", true),
     t(IG, "", "compute_grid_size_estimate", true),
-    t(PL, "", "place_grid_items", false),
+    t(PL, "", "place_grid_items", true),
 ];
 
 fn self_t(s: &str) -> R<Option<T>> {
